@@ -189,8 +189,8 @@ theorem lazyLaws_now (o : Oracle) : LazyLaws (worldNow o) tablesNow where
       have hc2 : tbl.contains 0xFEFF = true := by simpa using this
       rw [hno] at hc2; cases hc2
 
-/-- **C01 for the current tree**: every candidate's text is the model's strict decode (Lean table
-    codecs / UTF-8 / UTF-16; CJK codecs through the oracle) of the input minus its own mark -/
+/-- **C01 for the current tree**: every candidate's text is the model's strict decode (Lean definitions for
+    every supported encoding: tables, UTF-8, UTF-16, the multi-byte legacy decoders) of the input minus its own mark -/
 theorem C01_decodes_current (o : Oracle) {b : Bytes} {s : Settings} {incl excl : List Name}
     (hincl : canonList ianaNow s.incl = .ok incl) (hexcl : canonList ianaNow s.excl = .ok excl)
     {ms : List (Match Name Name)} (hb : b ≠ [])
